@@ -38,6 +38,8 @@ SCENARIOS = [
     # c falls due much later, in a completely idle system
     dict(name='blocked-admission', obs=[('a', 0, 5, 10, 10, 1), ('b', 5, 6, 10, 10, 1), ('c', 60, 2, 10, 1, 1)], max_ingest=3,
          hot=(100, 10), cold=(200, 10)),
+    # F7 (recorded known finding): each of two overlapping observations fits the free space it sees at admission, together they do not
+    dict(name='tight-hot-overlap', obs=[('a', 0, 5, 10, 4, 1), ('b', 1, 5, 10, 4, 1)], hot=(30, 10)),
 ]
 
 
